@@ -4,17 +4,22 @@
 # made with `rsync -a --exclude .git /verif/ /root/work/w2/`; override with VERIF_COPY) with VERIF_REPO=<worktree>, and
 # reports every check that does not exit 0 (nf = ended in no-failing-input-found).
 wt=$1; pd=$2
+L=${REFAC_LOGDIR:-/root/work}   # where the per-check logs go (override with REFAC_LOGDIR)
 cd ${VERIF_COPY:-/root/work/w2}
 export VERIF_REPO=$wt
 for pf in $pd/*.diff; do
   n=$(basename $pf .diff)
   git -C $wt checkout -q -- src
   git -C $wt apply $pf || { echo "$n NOAPPLY"; continue; }
+  # every generated input from this patch's source (a check regenerates only the inputs it lists itself; without this a
+  # file generated under the previous patch can make an unrelated check fail: A08's NameTables broke C10/C11 under B02)
+  /venv/bin/python harness/translate.py --all > /dev/null 2>&1
   res=""
   for p in C01 C02 C03 C04 C05 C06 C07 C08 C09 C10 C11 C12 C13 C14 C15 C16 C17 C18 C19 C20; do
-    ./check $p quick > /root/work/refac_${n}_$p.log 2>&1; rc=$?
-    [ $rc -ne 0 ] && res="$res $p:rc=$rc($(grep -c 'no-failing-input-found' /root/work/refac_${n}_$p.log)nf)"
+    ./check $p quick > $L/refac_${n}_$p.log 2>&1; rc=$?
+    [ $rc -ne 0 ] && res="$res $p:rc=$rc($(grep -c 'no-failing-input-found' $L/refac_${n}_$p.log)nf)"
   done
   echo "$n ->${res:- all green}"
 done
 git -C $wt checkout -q -- src
+/venv/bin/python harness/translate.py --all > /dev/null 2>&1
